@@ -20,6 +20,7 @@
      kept      << [g, adv |-> <<before, after>>, lsb |-> <<before, after>>, cls |-> <<GDEF glyph class before, after>>,
                    loc |-> << <<outline id before, after, advance before, after>> per location >>] >>
      res       (generated fonts only) the full projection of the saved result
+     unreadable (only if the library cannot read the saved result back: a table or glyph fails to decompile) the exception text
      crash     (only if the subsetter raised) the exception text; req and opts are recorded as usual
    meta.fonts[i].fv = the font has FeatureVariations (their alternate lookups are outside the projection).
    The observed final state is mapped onto the variables of Subset.tla (instance S) and the clauses of the
@@ -150,6 +151,7 @@ KeptClause(t) ==
 Judge(t) ==
   IF "crash" \in DOMAIN t THEN (IF S!StartSet(TF, t.req, t.opts) = {} THEN <<"domain:empty-glyph-set", 0>>
                                 ELSE <<"subset:raised-on-a-valid-request", 0>>)
+  ELSE IF "unreadable" \in DOMAIN t THEN <<"result:saved-font-cannot-be-read-back", 0>>
   ELSE IF ~WellFormed(t) THEN <<"trace:malformed", 0>>
   ELSE LET o == OrderClause(t) IN
        IF o # None THEN o
